@@ -37,6 +37,11 @@ func (k Keeper) GetLatestPriceFromAssetAndSource(ctx sdk.Context, asset, source 
 	for ; iterator.Valid(); iterator.Next() {
 		var val types.Price
 		k.cdc.MustUnmarshal(iterator.Value(), &val)
+		// keys are asset||source without a separator: skip entries of another asset/source
+		// whose concatenation merely shares this prefix
+		if val.Asset != asset || val.Source != source {
+			continue
+		}
 		return val, true
 	}
 
@@ -51,6 +56,10 @@ func (k Keeper) GetLatestPriceFromAnySource(ctx sdk.Context, asset string) (val 
 	for ; iterator.Valid(); iterator.Next() {
 		var val types.Price
 		k.cdc.MustUnmarshal(iterator.Value(), &val)
+		// the bare asset prefix also matches longer asset names: skip them
+		if val.Asset != asset {
+			continue
+		}
 		return val, true
 	}
 
